@@ -155,6 +155,9 @@ pub fn all_obtained(sim: &Sim) -> bool {
 
 /// Runs one traffic execution. The monitors decide; the summary is for evidence.
 pub fn run(ctx: &Ctx, out: &mut Outcome, cfg: SimCfg, plan: &Plan, run_seed: u64, mons: &mut Vec<Box<dyn Monitor>>) -> (Summary, Sim) {
+    if cfg.library_default {
+        out.count("runs_with_library_default_config");
+    }
     let mut sim = Sim::new(cfg, run_seed);
     let retx_before = out.get("retransmissions");
     let mut r = Rng::new(run_seed ^ 0x7AFF1C);
